@@ -68,8 +68,8 @@ def run(name, seed):
         open(mf, "w").write(src.replace(old, new))
         ov = os.path.join(tmp, "overlay.json")
         json.dump({"Replace": {MEM + fn: mf}}, open(ov, "w"))
-        for out, extra in (("c20child", []), ("c20child.race", ["-race"])):
-            p = subprocess.run(["go", "build", "-tags", "verif", "-overlay", ov, "-o", os.path.join(tmp, out)] + extra + ["./props/c20/child"],
+        for out, extra, pkg in (("c20child", [], "./props/c20/child"), ("c20child.race", ["-race"], "./props/c20/child"), ("c20ui", [], "./props/c20/uichild")):
+            p = subprocess.run(["go", "build", "-tags", "verif", "-overlay", ov, "-o", os.path.join(tmp, out)] + extra + [pkg],
                                cwd=ROOT, env=ENV, stdout=subprocess.PIPE, stderr=subprocess.STDOUT, text=True)
             if p.returncode != 0:
                 return name, "MUTANT-DOES-NOT-COMPILE", p.stdout[-500:]
